@@ -22,7 +22,7 @@ MOD = __name__
 RULE_TEXT = (
     "(A) every Rule call sequence up to length 4 (quick) / 5 (thorough) over a 16-call vocabulary (incl. empty list, "
     "unknown name, regex without match) and every sequence of length 5 (6) over a 9-call core vocabulary, every LayerRule sequence up to length 6 / 7 (cut at the first raising call) and "
-    "every DiagramRule sequence up to length 4, each followed by assert_applies; plus every single deletion, duplication "
+    "every DiagramRule sequence up to length 4, each followed by assert_applies; plus every single insertion (of every call of the vocabulary at every position), deletion, duplication "
     "and adjacent transposition of every complete canonical chain. A specification automaton written from the property "
     "text classifies a history as must-error or no-claim; must-error histories have to raise a non-assertion error "
     "somewhere and never return a verdict. (B) random architectures (direct and level-limited) with rules / layer rules "
@@ -345,6 +345,16 @@ def canonical_layer_chains():
         for a in sorted(L_ANYS):
             chains.append([("based_on",), ("layers_that",), ("are_named", "L1"), (v,), (a,)])
     return chains
+
+
+def insertions(chain, vocabulary):
+    """Every call of the vocabulary inserted at every position of a complete chain (a second verb, a second import type,
+    a further module list ...): the rest of the chain stays complete, so the inserted call is the only possible defect."""
+    out = []
+    for i in range(len(chain) + 1):
+        for op in vocabulary:
+            out.append(chain[:i] + [op] + chain[i:])
+    return out
 
 
 def mutations(chain):
@@ -689,7 +699,7 @@ def exh_misc(arg, stt, deadline) -> None:
     elif what == "mutations-rule":
         seen = set()
         for chain in canonical_rule_chains():
-            for m in [chain] + mutations(chain):
+            for m in [chain] + mutations(chain) + insertions(chain, RULE_OPS_FULL):
                 key = repr(m)
                 if key in seen:
                     continue
@@ -700,7 +710,7 @@ def exh_misc(arg, stt, deadline) -> None:
     elif what == "mutations-layer":
         seen = set()
         for chain in canonical_layer_chains():
-            for m in [chain] + mutations(chain):
+            for m in [chain] + mutations(chain) + insertions(chain, L_OPS):
                 key = repr(m)
                 if key in seen:
                     continue
